@@ -670,19 +670,24 @@ def check_float_value_buffer(prog, ctx):
                "the hierarchisation no longer writes into the buffer it receives: nothing to demand from the callers")
         return
     n = 0
+    hzc = prog.func("Hierarchization.HierarchizationLSG.__call__")
+    hz_call_param = hzc.params[1]
     for fi in prog.functions.values():
         if fi.cls is None or fi.module.name not in ("Integrator", "Grid", "GridOperation"):
             continue
         for call in R.calls_in(fi.node):
             f_ = call.func
-            if not (isinstance(f_, ast.Attribute) and f_.attr == "hierarchization" and R.self_attr(f_, fi.self_name) == "hierarchization" and call.args):
+            if not (isinstance(f_, ast.Attribute) and f_.attr == "hierarchization" and R.self_attr(f_, fi.self_name) == "hierarchization"):
+                continue
+            buf_arg = call.args[0] if call.args else next((k.value for k in call.keywords if k.arg == hz_call_param), None)
+            if buf_arg is None:
                 continue
             n += 1
             ctx.touch(fi)
-            ok = _float_array_expr(fi, call.args[0])
+            ok = _float_array_expr(fi, buf_arg)
             ctx.check(ok, "C10.D11", R.key_of(fi, "float-value-buffer"), fi.loc(call),
                       "the buffer handed to the hierarchisation is a floating-point array by construction",
                       "the buffer `%s` handed to the hierarchisation is not a floating-point array by construction (it takes the dtype of the "
                       "function values): the hierarchisation stores the surpluses into it in place (%s, line %d), for an integer-valued "
-                      "function they are truncated" % (src(call.args[0])[:60], src(inplace[0])[:50], inplace[0].lineno))
+                      "function they are truncated" % (src(buf_arg)[:60], src(inplace[0])[:50], inplace[0].lineno))
     ctx.floor("C10.D11", n, 1, "calls of the hierarchisation operator")
